@@ -1219,7 +1219,13 @@ public:
     abs_dom_t invariant = get_forward_invariant(&stmt);
     CRAB_LOG("backward-tr", crab::outs() << "** " << stmt << "\n"
                                          << "\tPOST=" << m_pre << "\n");
-    m_pre.backward_assign(stmt.dst(), stmt.src(), std::move(invariant));
+    if (stmt.dst().get_type().is_bool() != stmt.src().get_type().is_bool()) {
+      // conversion between a boolean and an integer: the value is
+      // not preserved (trunc of 2 is true), so it is not an assignment
+      m_pre -= stmt.dst();
+    } else {
+      m_pre.backward_assign(stmt.dst(), stmt.src(), std::move(invariant));
+    }
     CRAB_LOG("backward-tr", crab::outs() << "\tPRE=" << m_pre << "\n");
   }
 
